@@ -9,6 +9,8 @@ use serde_json::{json, Value};
 pub enum E {
     Var(String),
     Int(String),
+    /// a block-like operand (`{ a }`, `if a { b } else { 1 }`): an atom for the operator table; read back as <other:...>
+    Opaque(String),
     Bin(&'static str, Box<E>, Box<E>),
     Pre(&'static str, Box<E>), // - + ! ~ ^ ^mut
     Call(Box<E>, Vec<E>),
@@ -37,6 +39,7 @@ impl E {
         match self {
             E::Var(n) => n.clone(),
             E::Int(n) => n.clone(),
+            E::Opaque(t) => format!("<other:{}>", t.chars().take(20).collect::<String>()),
             E::Bin(op, l, r) => format!("({} {} {})", op, l.sexpr(), r.sexpr()),
             E::Pre(op, e) => format!("(pre{} {})", op, e.sexpr()),
             E::Call(f, args) => format!("(call {}{})", f.sexpr(), args.iter().map(|a| format!(" {}", a.sexpr())).collect::<String>()),
@@ -49,7 +52,7 @@ impl E {
     }
     pub fn depth(&self) -> usize {
         match self {
-            E::Var(_) | E::Int(_) => 0,
+            E::Var(_) | E::Int(_) | E::Opaque(_) => 0,
             E::Bin(_, l, r) => 1 + l.depth().max(r.depth()),
             E::Pre(_, e) | E::Try(e) | E::Deref(e) | E::Cast(_, e) | E::Field(e, _) => 1 + e.depth(),
             E::Call(f, a) => 1 + a.iter().map(|x| x.depth()).max().unwrap_or(0).max(f.depth()),
@@ -114,7 +117,7 @@ impl Printer<'_> {
     }
     pub fn print(&mut self, e: &E) -> String {
         match e {
-            E::Var(n) | E::Int(n) => n.clone(),
+            E::Var(n) | E::Int(n) | E::Opaque(n) => n.clone(),
             E::Bin(op, l, r) => {
                 let lv = level(op);
                 // left-associative: equal level on the left needs no parentheses, on the right it does
@@ -501,6 +504,34 @@ pub fn run(args: &Args, corpus: &[String]) -> Value {
         visited += 1;
         check_tree(&mut rep, &e, None);
     });
+    // block-like operands (an atom for the table) on either side of every binary operator and under the arithmetic prefix operators
+    if shard == 0 || lite {
+        let opaque = ["{ a }", "if a { b } else { 1 }", "{ a + 1 }"]; // (`comptime` takes a whole expression, it is not an atom)
+        let mut n_opaque = 0u64;
+        for (k, t) in opaque.iter().enumerate() {
+            let o = E::Opaque(t.to_string());
+            let a = E::Var("a".into());
+            for (j, op) in all_bin.iter().enumerate() {
+                if lite && ((k * 31 + j) as u64 % shards != shard || (k + j) % 3 != 0) {
+                    continue;
+                }
+                for e in [
+                    E::Bin(op, Box::new(o.clone()), Box::new(a.clone())),
+                    E::Bin(op, Box::new(a.clone()), Box::new(o.clone())),
+                    E::Bin(op, Box::new(E::Bin(op, Box::new(o.clone()), Box::new(a.clone()))), Box::new(E::Int("1".into()))),
+                    E::Bin("+", Box::new(E::Bin(op, Box::new(o.clone()), Box::new(a.clone()))), Box::new(o.clone())),
+                ] {
+                    n_opaque += 1;
+                    check_tree(&mut rep, &e, None);
+                }
+            }
+            for pre in ["-", "!", "~"] {
+                n_opaque += 1;
+                check_tree(&mut rep, &E::Bin("*", Box::new(E::Pre(pre, Box::new(o.clone()))), Box::new(a.clone())), None);
+            }
+        }
+        rep.count("trees_with_block_like_operands", n_opaque);
+    }
     rep.count("trees_depth_le_1_all_ops", l1.len() as u64);
     rep.count("trees_depth_2_all_ops_total", total2);
     rep.count("trees_depth_2_all_ops_visited", visited);
